@@ -175,7 +175,10 @@ pub fn run_check(prop: &str, tier: &str) -> i32 {
             // flush acknowledgements racing the background flusher, every schedule within the bound
             let cache = std::sync::Mutex::new(std::collections::HashMap::new());
             let judge = |p: &schedprops::Program, ex: &schedprops::Exec| schedprops::judge_acknowledged(p, ex, &cache);
-            schedprops::run_programs(c08::ack_programs(), if thorough { 3 } else { 2 }, 4000, budget * 0.3, &judge, None, &["C02", "C03"], &mut report);
+            let mut acks = c08::ack_programs();
+            // ... and a clean close (the last handle dropped inside the controlled phase)
+            acks.extend(c08::close_programs(thorough));
+            schedprops::run_programs(acks, if thorough { 3 } else { 2 }, 4000, budget * 0.3, &judge, None, &["C02", "C03"], &mut report);
         }
         "C03" => {
             let s = suites::crash_suites(thorough);
@@ -506,7 +509,10 @@ pub fn sched_prog(name: &str, bound: u32, seconds: f64) -> i32 {
     let found = std::sync::Mutex::new(Vec::new());
     let mach = std::sync::Mutex::new(Vec::new());
     let dl = Deadline::new(seconds);
-    let st = schedprops::explore_program(&p, bound, 4000, &dl, worker_threads(), &schedprops::judge_linearizable, None, &found, &mach);
+    let cache = std::sync::Mutex::new(std::collections::HashMap::new());
+    let ack_judge = |p: &schedprops::Program, ex: &schedprops::Exec| schedprops::judge_acknowledged(p, ex, &cache);
+    let judge: &schedprops::Judge = if p.name.starts_with("ack:") { &ack_judge } else { &schedprops::judge_linearizable };
+    let st = schedprops::explore_program(&p, bound, 4000, &dl, worker_threads(), judge, None, &found, &mach);
     println!(
         "program {name} bound {bound}: schedules {} decisions {} distinct histories {} results {} complete {} longest {} wall {:.1}s",
         st.executions, st.decisions, st.distinct_histories, st.distinct_results, st.complete, st.max_trace, dl.elapsed()
@@ -532,6 +538,7 @@ pub fn all_sched_programs() -> Vec<schedprops::Program> {
         v.extend(c08::write_behind_programs());
         v.extend(c08::ack_programs());
         v.extend(c08::ack_fault_programs());
+        v.extend(c08::close_programs(thorough));
         v.extend(concprogs::scan_programs(thorough));
         v.extend(concprogs::limit_programs(thorough));
         v.extend(concprogs::sweep_programs(thorough));
